@@ -124,6 +124,28 @@ CLAIMED = {
         note=LP_NOTE + " Components below 1e-3 are not counted (documented detection limit of the MIP formulation).",
         technique="Lean 4 proof (getter/setter model) + certified differential testing of minimal_medium",
         design="DESIGN.md section 5, C18"),
+    "C17": dict(
+        engine="lp",
+        text="Lean 4: a point feasible for the add_loopless constraints contains no sign-compatible internal cycle (force_opposes_flux, "
+             "no_cycle_of_orthogonal, loopless_feasible_has_no_cycle); the bounds _add_cycle_free sets keep direction and cap magnitude "
+             "(cycle_free_bounds); a certified optimum of the cycle-free problem admits no removable cycle (cycle_free_optimum_is_minimal). "
+             "loopless_solution is checked for feasibility, objective, boundary fluxes, direction/magnitude of every flux and minimality of total "
+             "internal flux against an optimum certified on the independently built CycleFreeFlux region; add_loopless against the true loopless "
+             "optimum from exhaustive sign-pattern enumeration with certified LPs (<= 4/5 internal reactions) and an exact cycle test of the solution.",
+        note=LP_NOTE + " Completeness of add_loopless (driving forces within [1, max_bound], floating-point null space) is not a theorem: compared with the "
+             "exhaustive enumeration on small networks. Oracle equalities relaxed by 1e-7 because start vectors are GLPK floats.",
+        technique="Lean 4 proof (MILP soundness, formulation lemmas) + certified differential testing",
+        design="DESIGN.md section 5, C17"),
+    "C19": dict(
+        engine="lp",
+        text="Lean 4: a reaction is blocked iff both certified extremes of its flux are zero (blocked_iff_range_zero); a reaction that carries flux in "
+             "one feasible vector is not blocked, which is the soundness of the pre-filter and of what fastcc keeps (carries_flux_not_blocked); opening "
+             "exchanges only enlarges the feasible set (widen_box). The true blocked set of every generated network comes from certified LPs; "
+             "find_blocked_reactions (reaction_list by id/object, open_exchanges) must equal it; fastcc must keep no blocked reaction, drop no "
+             "irreversible unblocked reaction and leave stoichiometry, bounds and rules unchanged.",
+        note=LP_NOTE + " fastcc completeness is a known finding (drops unblocked reversible reactions, known_findings.json): only that signature is tolerated.",
+        technique="Lean 4 proof (blockedness from certificates) + certified differential testing",
+        design="DESIGN.md section 5, C19"),
 }
 
 PENDING_REASON = "check under construction in this session (see DESIGN.md section 9 build order); not claimed until its Lean model, theorems and correspondence exist"
@@ -162,7 +184,7 @@ def main():
              "kind_free_text": "Lean model DLM + theorems (lean/CobraModel/{Model,Lemmas,Props}) and op-sequence correspondence against cobra.core.DictList"},
             {"name": "core", "path": "harness/core_engine.py", "serves_properties": ["C01", "C02", "C03", "C07"],
              "kind_free_text": "Lean Core model (content + solver + undo stack as functions over ids), theorems in Props/C01,C02,C03,C07, traces on the real model with raw GLPK read-out"},
-            {"name": "lp", "path": "harness/lpcert.py", "serves_properties": ["C04", "C05", "C06", "C09", "C18"],
+            {"name": "lp", "path": "harness/lpcert.py", "serves_properties": ["C04", "C05", "C06", "C09", "C17", "C18", "C19"],
              "kind_free_text": "Lean LP model + proved certificate checker (Model/LP.lean, Lemmas/LP.lean), untrusted exact simplex, constructive FBA instance generator"},
             {"name": "gpr", "path": "harness/c08.py", "serves_properties": ["C08"],
              "kind_free_text": "Lean model GPRM (rule trees, parser, remover) + generated escape tables + correspondence against cobra.core.gene.GPR"},
